@@ -43,6 +43,14 @@ PROPS = {
         'assumptions': ['nested copy_from calls by contract (induction over the nesting depth of the schema)'],
         'level': 'proof',
     },
+    'C14': {
+        'modules': ['contracts.c14_expr'],
+        'standins': ['expr_eval'],
+        'trusted': PYVC_TRUST + ['ply builds the parse tree its grammar and precedence table define and calls one action per reduction',
+                                 'CPython int(text, base) / str(int)'],
+        'assumptions': ['x << y modelled as x * POW2(y) with POW2 uninterpreted and positive (same term in code and spec)'],
+        'level': 'proof',
+    },
     'C19': {
         'modules': ['contracts.c01_encode', 'contracts.c01_arrays', 'contracts.c01_wrappers', 'contracts.c04_runtime'],
         'standins': ['py_codec'],
